@@ -733,7 +733,7 @@ def loop_ordinals(fnode):
         for c in ast.iter_child_nodes(n):
             if isinstance(c, (ast.FunctionDef, ast.Lambda, ast.ClassDef)):
                 continue
-            if isinstance(c, (ast.For, ast.While)):
+            if isinstance(c, (ast.For, ast.While, ast.ListComp, ast.SetComp, ast.GeneratorExp, ast.DictComp)):
                 out[id(c)] = cnt[0]
                 cnt[0] += 1
             rec(c)
